@@ -24,6 +24,10 @@ def sh(cmd, **kw):
 def env_offline():
     e = dict(os.environ)
     e.update({'CARGO_NET_OFFLINE': 'true', 'RUST_BACKTRACE': '0'})
+    # the harness's own .cargo/config.toml decides where things are built and with which cfg flags;
+    # an inherited override would make the check run a stale binary
+    for k in ('CARGO_TARGET_DIR', 'CARGO_BUILD_TARGET_DIR', 'RUSTFLAGS', 'CARGO_ENCODED_RUSTFLAGS', 'CARGO_BUILD_RUSTFLAGS', 'CARGO_BUILD_TARGET'):
+        e.pop(k, None)
     return e
 
 
